@@ -19,7 +19,17 @@ RULE = ("MC: exhaustive TLC runs of LiteClient (one action per critical section 
         "asserts payload equality, return-by-deadline, later calls succeed, census before/after, and fails on any race report. "
         "distinct = executions whose trace was accepted + hook-free executions that passed the harness assertions.")
 
-SLACK_MS = int(os.environ.get("C12_SLACK_MS", "600"))
+def _slack():
+    """scheduling tolerance of every real-time judgement; widened when the machine is oversubscribed"""
+    base = int(os.environ.get("C12_SLACK_MS", "600"))
+    try:
+        load = float(open("/proc/loadavg").read().split()[0]) / (os.cpu_count() or 1)
+    except Exception:
+        load = 0.0
+    return base if load <= 1.5 else int(base * min(4.0, 1.0 + load / 2.0))
+
+
+SLACK_MS = _slack()
 RECOVER_MS = 2 * 3000 + 1500          # two ping periods (connection.go: ping) + slack
 RETRY_MS = 1000                        # connection.go: reconnect() sleeps 1 s after a failed dial
 ALL_INV = "TypeOK OwnAnswer ChanOwn ReaderNeverBlocks RegisteredWhileWaiting NoLeakAtEnd StatusLink NoLeak NoLeakAtRest NoStuck"
@@ -206,6 +216,8 @@ def harness_findings(x):
     r = x.res
     if r is None:
         return out
+    if r.get("hang"):
+        out.append(("C12:hang", "a caller was still inside Request long after its deadline: " + r.get("hang_stacks", "")[:1500]))
     if r["payload_mismatch"]:
         out.append(("C12:payload-mismatch", "calls %s returned bytes that are not the server's answer for their query id" % r["payload_mismatch"][:8]))
     if r["late"]:
@@ -309,6 +321,7 @@ def run(ck):
     ck.build_vh()
     binary, raced = build_race(ck)
     ck.extra["race_detector"] = raced
+    ck.extra["slack_ms"] = SLACK_MS
 
     # ---- model checking and script generation side by side
     ps = plans(ck)
